@@ -609,6 +609,12 @@ def run(chk):
     chk.rule_prefix = "C07."
     chk.rule_filter = lambda r: r.startswith("R3")
     C07.check_r3_slots(chk, "default", build.load_units(build.library_units(), "default"))
+    # "at the next scheduling pass (or fibre_run / fibre_kill call)": the drain those calls make must be complete (C06.I4)
+    from . import C06
+    chk.rule("C06.I4", "handle_atomic_runq stops only on an empty queue (a NULL receive, the queue's own observer, or a sound 'request posted' hint)")
+    chk.rule_prefix = "C06."
+    chk.rule_filter = lambda r: r.startswith("I4")
+    C06.check_i4(chk, m, K)
     chk.rule_prefix = ""
     chk.rule_filter = None
     # the code under this property is written with the protothread macros: their expansion is validated as in C08
